@@ -405,11 +405,11 @@ func buildRoutines() []*Routine {
 		two, areal      bool
 		ref             func(*Ctx)
 	}{
-		{"syr", "SD", "Syr", Sym, "uplo n alpha X incX A ldA", false, false, refSyr},    // A += alpha·x·xᵀ
-		{"spr", "SD", "Spr", SymPacked, "uplo n alpha X incX A", false, false, refSyr},  //
+		{"syr", "SD", "Syr", Sym, "uplo n alpha X incX A ldA", false, false, refSyr},          // A += alpha·x·xᵀ
+		{"spr", "SD", "Spr", SymPacked, "uplo n alpha X incX A", false, false, refSyr},        //
 		{"syr2", "SD", "Syr2", Sym, "uplo n alpha X incX Y incY A ldA", true, false, refSyr2}, // A += alpha·x·yᵀ + alpha·y·xᵀ
 		{"spr2", "SD", "Spr2", SymPacked, "uplo n alpha X incX Y incY A", true, false, refSyr2},
-		{"her", "CZ", "Her", Herm, "uplo n alpha X incX A ldA", false, true, refHer},    // A += alpha·x·xᴴ, alpha real
+		{"her", "CZ", "Her", Herm, "uplo n alpha X incX A ldA", false, true, refHer}, // A += alpha·x·xᴴ, alpha real
 		{"hpr", "CZ", "Hpr", HermPacked, "uplo n alpha X incX A", false, true, refHer},
 		{"her2", "CZ", "Her2", Herm, "uplo n alpha X incX Y incY A ldA", true, false, refHer2}, // A += alpha·x·yᴴ + conj(alpha)·y·xᴴ
 		{"hpr2", "CZ", "Hpr2", HermPacked, "uplo n alpha X incX Y incY A", true, false, refHer2},
@@ -443,8 +443,8 @@ func buildRoutines() []*Routine {
 	}{{"symm", "SDCZ", "Symm", Sym}, {"hemm", "CZ", "Hemm", Herm}} {
 		add(&Routine{Base: v.base, Level: 3, Methods: names(v.base, v.precs), Wrapper: v.wr,
 			Args: args("side uplo m n alpha A ldA B ldB beta C ldC"),
-			Ops: []Operand{sq("A", v.kind, In, ifLeft(dM, dN)), mat("B", General, In, dM, dN), mat("C", General, InOut, dM, dN)},
-			Ref: refSymm})
+			Ops:  []Operand{sq("A", v.kind, In, ifLeft(dM, dN)), mat("B", General, In, dM, dN), mat("C", General, InOut, dM, dN)},
+			Ref:  refSymm})
 	}
 	// syrk: C = alpha·A·Aᵀ + beta·C (NoTrans, A n×k) or alpha·Aᵀ·A + beta·C (A k×n); triangle of C
 	// herk: same with ᴴ, alpha and beta real
